@@ -360,6 +360,7 @@ def shards(tier, seed):
     sh.append({"k": "tables"})
     sh.append({"k": "italic-rows"})
     sh.append({"k": "underlined-codes"})
+    sh.append({"k": "every-indent"})
     return sh
 
 
@@ -479,6 +480,16 @@ def run_shard(d):
                     for rows in ((1, 15), (14, 15), (7, 8)):
                         check_program(acc, [wrap([("PAC", rows[0], 0, it1, 0)] + contents[1] + [("PAC", rows[1], 0, it2, 0)] + contents[2])], doubled, "underlined-codes")
                         check_program(acc, [wrap(FIRST[6]), wrap([("PAC", rows[0], 0, it1, 0)] + contents[3] + [("PAC", rows[1], 0, it2, 0)] + contents[0])], doubled, "underlined-codes")
+    elif k == "every-indent":
+        # an italic row, then a plain preamble at every indent (0, 4, ... 28; tab offsets 0-3) on the next row and on a
+        # row further down: a plain preamble ends the italics whatever its column is
+        for doubled in (False, True):
+            for r1 in range(1, 15):
+                for r2 in sorted({r1 + 1, min(15, r1 + 5)}):
+                    for col in range(0, 32, 4):
+                        for to in (0, 3):
+                            check_program(acc, [wrap([("PAC", r1, 0, True, 0), ("C2", "A", "b"), ("PAC", r2, col, False, to), ("C2", "c", "d")])], doubled, "every-indent")
+                            check_program(acc, [wrap([("PAC", r1, 0, False, 0), ("MRI",), ("C2", "A", "b"), ("PAC", r2, col, False, to), ("C2", "c", "d")])], doubled, "every-indent")
     elif k == "italic-rows":
         from mc.checks import c11
 
